@@ -43,6 +43,11 @@ struct Scn {
     small: bool,
     /// target: a dedicated arbiter, or the system arbiter (`System::current().arbiter()`)
     system_arbiter: bool,
+    /// the arbiter is kept busy (a task spins until released) while each phase's commands are sent, so that they are
+    /// all queued when the loop next looks at its channel
+    busy: bool,
+    /// a throw-away System was created, run and dropped on the same thread first
+    prior_system: bool,
     /// ops[phase][sender]; sender 0 is the owner thread (holds the `Arbiter`), others use cloned handles
     ops: Vec<Vec<Vec<Op>>>,
 }
@@ -50,16 +55,53 @@ struct Scn {
 impl Scn {
     fn to_json(&self) -> Value {
         json!({"prop": "C10", "case_seed": self.seed, "small": self.small, "system_arbiter": self.system_arbiter,
+               "busy": self.busy, "prior_system": self.prior_system,
                "ops": format!("{:?}", self.ops)})
     }
     fn signature(&self) -> String {
-        format!("{}|{:?}", self.system_arbiter, self.ops)
+        format!("{}{}{}|{}", self.system_arbiter as u8, self.busy as u8, self.prior_system as u8, compress(&self.ops))
     }
+}
+
+fn compress(ops: &[Vec<Vec<Op>>]) -> String {
+    // run-length form: bursts of 200 identical commands stay readable
+    let mut out = String::new();
+    for per in ops {
+        out.push('[');
+        for v in per {
+            out.push('[');
+            let mut i = 0;
+            while i < v.len() {
+                let mut j = i;
+                while j < v.len() && v[j] == v[i] {
+                    j += 1;
+                }
+                out.push_str(&format!("{:?}x{} ", v[i], j - i));
+                i = j;
+            }
+            out.push(']');
+        }
+        out.push(']');
+    }
+    out
 }
 
 fn gen_from_seed(seed: u64, small: bool) -> Scn {
     let mut r = Rng::new(seed);
     let system_arbiter = r.chance(1, 5);
+    let busy = r.chance(1, 3);
+    let prior_system = r.chance(1, 4);
+    // burst: a busy arbiter, a stop, then far more commands than one poll of the loop receives (Tokio's cooperative
+    // budget is 128 receives) from the same sender and from a second one
+    if !small && r.chance(1, 40) {
+        let n = 140 + r.usize(120);
+        let mut own: Vec<Op> = (0..r.usize(3)).map(|_| Op::SpawnFn(Kind::Complete)).collect();
+        own.push(Op::Stop);
+        own.extend((0..n).map(|i| if i % 2 == 0 { Op::SpawnFn(Kind::Complete) } else { Op::Spawn(Kind::Complete) }));
+        let other: Vec<Op> = (0..r.usize(4)).map(|_| Op::Spawn(Kind::Yield)).collect();
+        let late: Vec<Op> = (0..n / 2).map(|_| Op::Spawn(Kind::Complete)).collect();
+        return Scn { seed, small, system_arbiter, busy: true, prior_system, ops: vec![vec![own, other], vec![late]] };
+    }
     let senders = 1 + r.usize(if small { 2 } else { 4 });
     let phases = 1 + r.usize(if small { 2 } else { 3 });
     let kinds = [Kind::Complete, Kind::Complete, Kind::Pend, Kind::Panic, Kind::Nested, Kind::Yield];
@@ -74,7 +116,7 @@ fn gen_from_seed(seed: u64, small: bool) -> Scn {
                 .map(|_| {
                     let k = *r.pick(&kinds);
                     match r.usize(12) {
-                        0 if !system_arbiter => Op::Stop,
+                        0 => Op::Stop,
                         1..=5 => Op::SpawnFn(if k == Kind::Pend || k == Kind::Yield { Kind::Complete } else { k }),
                         _ => Op::Spawn(k),
                     }
@@ -84,7 +126,7 @@ fn gen_from_seed(seed: u64, small: bool) -> Scn {
         }
         ops.push(per);
     }
-    Scn { seed, small, system_arbiter, ops }
+    Scn { seed, small, system_arbiter, busy, prior_system, ops }
 }
 
 #[derive(Default)]
@@ -102,6 +144,8 @@ struct TaskRec {
     thread: AtomicU64,
     system_id: AtomicU64,
     probe_thread: AtomicU64,
+    /// result of `Arbiter::current().spawn_fn(..)` inside the task: 0 unknown, 1 true, 2 false
+    probe_accepted: AtomicU64,
     dropped: AtomicBool,
 }
 
@@ -138,9 +182,10 @@ fn task_future(sh: Arc<Shared>, id: usize, kind: Kind) -> impl std::future::Futu
             Kind::Panic => panic!("scripted task panic"),
             Kind::Nested => {
                 let sh2 = sh.clone();
-                Arbiter::current().spawn_fn(move || {
+                let ok = Arbiter::current().spawn_fn(move || {
                     sh2.tasks[id].probe_thread.store(thread_hash(), Relaxed);
                 });
+                sh.tasks[id].probe_accepted.store(if ok { 1 } else { 2 }, Relaxed);
             }
             Kind::Yield => {
                 for _ in 0..3 {
@@ -158,9 +203,10 @@ fn task_fn(sh: Arc<Shared>, id: usize, kind: Kind) -> impl FnOnce() + Send + 'st
             Kind::Panic => panic!("scripted task panic"),
             Kind::Nested => {
                 let sh2 = sh.clone();
-                Arbiter::current().spawn_fn(move || {
+                let ok = Arbiter::current().spawn_fn(move || {
                     sh2.tasks[id].probe_thread.store(thread_hash(), Relaxed);
                 });
+                sh.tasks[id].probe_accepted.store(if ok { 1 } else { 2 }, Relaxed);
             }
             _ => {}
         }
@@ -193,6 +239,11 @@ struct Seen {
     stops_in_sequence: u64,
     system_arbiter_cases: u64,
     block_on_values: u64,
+    busy_phases: u64,
+    burst_cases: u64,
+    prior_system_cases: u64,
+    current_arbiter_probes: u64,
+    stops_on_system_arbiter: u64,
 }
 
 fn violated(sig: &str, desc: String) -> Outcome {
@@ -202,6 +253,23 @@ fn violated(sig: &str, desc: String) -> Outcome {
 /// Runs on a fresh thread which becomes the system thread.
 fn scenario(scn: &Scn, seen: &mut Seen) -> Outcome {
     let mut rng = Rng::new(scn.seed ^ 0xA5A5);
+    if scn.prior_system {
+        // this thread has hosted a system (and its arbiter) before: its thread-locals must be replaced, not kept
+        let prior = System::new();
+        let v = prior.block_on(async {
+            let (tx, rx) = tokio::sync::oneshot::channel();
+            Arbiter::current().spawn_fn(move || {
+                let _ = tx.send(7u8);
+            });
+            rx.await.unwrap_or(0)
+        });
+        System::current().stop();
+        let _ = prior.run_with_code();
+        if v != 7 {
+            return violated("C10:prior-system-probe-lost", "a function sent to the first system's arbiter did not run".into());
+        }
+        seen.prior_system_cases += 1;
+    }
     let runner = System::new();
     let sys = System::current();
     let sys_id = sys.id() as u64 + 1;
@@ -253,6 +321,21 @@ fn scenario(scn: &Scn, seen: &mut Seen) -> Outcome {
         seen.system_arbiter_cases += 1;
     }
 
+    // the system thread's current arbiter is this system's arbiter: a function sent through it runs once the system runs
+    let cur_probe = Arc::new(AtomicU64::new(0));
+    {
+        let c = cur_probe.clone();
+        let ok = Arbiter::current().spawn_fn(move || {
+            c.store(thread_hash(), Relaxed);
+        });
+        if !ok {
+            return violated(
+                "C10:arbiter-current-is-another-arbiter",
+                format!("Arbiter::current() on the thread of a freshly created System refused a command: it is not this system's arbiter (prior system on this thread: {})", scn.prior_system),
+            );
+        }
+    }
+
     // everything that drives the arbiter runs on a coordinator thread, so that the system thread can sit in run()
     let coordinator = {
         let sh = sh.clone();
@@ -261,7 +344,9 @@ fn scenario(scn: &Scn, seen: &mut Seen) -> Outcome {
         let sys = sys.clone();
         let system_arbiter = scn.system_arbiter;
         let seed = scn.seed;
-        thread::spawn(move || -> Result<(bool, u64), &'static str> {
+        let busy = scn.busy;
+        thread::spawn(move || -> Result<(bool, u64, u64), &'static str> {
+            let mut busy_phases = 0u64;
             // identity probe
             {
                 let sh2 = sh.clone();
@@ -279,6 +364,32 @@ fn scenario(scn: &Scn, seen: &mut Seen) -> Outcome {
             for (p, per) in plan.iter().enumerate() {
                 let barrier = Arc::new(Barrier::new(per.len()));
                 let mut ths = Vec::new();
+                // keep the loop busy while this phase's commands are queued
+                let release = Arc::new(AtomicBool::new(false));
+                let mut blocked = false;
+                if busy && !stop_issued.load(Relaxed) {
+                    let entered = Arc::new(AtomicBool::new(false));
+                    let (e2, r2) = (entered.clone(), release.clone());
+                    let ok = handle.spawn_fn(move || {
+                        e2.store(true, Relaxed);
+                        while !r2.load(Relaxed) {
+                            thread::yield_now();
+                        }
+                    });
+                    if !ok {
+                        return Err("VIOLATION:spawn returned false on a running arbiter");
+                    }
+                    match wait_until(|| entered.load(Relaxed)) {
+                        Waited::Done(()) => {}
+                        Waited::Stuck => return Err("STUCK:blocker never ran"),
+                        Waited::Unknown => {
+                            release.store(true, Relaxed);
+                            return Err("blocker watchdog");
+                        }
+                    }
+                    blocked = true;
+                    busy_phases += 1;
+                }
                 for (s, ops) in per.iter().enumerate() {
                     let (sh, handle, ops, barrier) = (sh.clone(), handle.clone(), ops.clone(), barrier.clone());
                     let (stop_issued, first_stop_phase) = (stop_issued.clone(), first_stop_phase.clone());
@@ -311,6 +422,9 @@ fn scenario(scn: &Scn, seen: &mut Seen) -> Outcome {
                 for t in ths {
                     let _ = t.join();
                 }
+                if blocked {
+                    release.store(true, Relaxed);
+                }
             }
             let stopped = stop_issued.load(Relaxed);
             // sentinel: by FIFO, once it has run everything accepted before it has started
@@ -335,7 +449,7 @@ fn scenario(scn: &Scn, seen: &mut Seen) -> Outcome {
             } else {
                 handle.stop();
             }
-            Ok((stopped, first_stop_phase.load(Relaxed)))
+            Ok((stopped, first_stop_phase.load(Relaxed), busy_phases))
         })
     };
     let _ = sentinel;
@@ -347,10 +461,20 @@ fn scenario(scn: &Scn, seen: &mut Seen) -> Outcome {
         coord_res = coordinator.join();
     } else {
         coord_res = coordinator.join();
+        // let the system's own loop run long enough to get to the probe, whatever order its tasks are polled in
+        let c = cur_probe.clone();
+        runner.block_on(async move {
+            for _ in 0..200 {
+                if c.load(Relaxed) != 0 {
+                    break;
+                }
+                tokio::task::yield_now().await;
+            }
+        });
         sys.stop();
         let _ = runner.run_with_code();
     }
-    let (stopped, first_stop_phase) = match coord_res {
+    let (stopped, first_stop_phase, busy_phases) = match coord_res {
         Ok(Ok(x)) => x,
         Ok(Err(e)) => {
             if let Some(w) = e.strip_prefix("STUCK:") {
@@ -364,6 +488,25 @@ fn scenario(scn: &Scn, seen: &mut Seen) -> Outcome {
         Err(_) => return violated("C10:panic", "coordinator panicked".into()),
     };
     jitter(&mut rng);
+    seen.busy_phases += busy_phases;
+    if scn.ops.iter().flatten().any(|v| v.len() > 100) {
+        seen.burst_cases += 1;
+    }
+    if stopped && scn.system_arbiter {
+        seen.stops_on_system_arbiter += 1;
+    }
+    // the system has run: the probe sent through the system thread's Arbiter::current() ran there (unless the system
+    // arbiter was stopped by the scenario before it got to it: it was first in the queue, so it never is)
+    {
+        let t = cur_probe.load(Relaxed);
+        seen.current_arbiter_probes += 1;
+        if t != thread_hash() {
+            return violated(
+                "C10:arbiter-current-is-another-arbiter",
+                format!("a function accepted by Arbiter::current() on the system thread {} (prior system on this thread: {})", if t == 0 { "never ran" } else { "ran on another thread" }, scn.prior_system),
+            );
+        }
+    }
 
     // ---- join, then read everything
     if let Some(a) = arb {
@@ -424,6 +567,11 @@ fn scenario(scn: &Scn, seen: &mut Seen) -> Outcome {
             }
             if t.kind == Some(Kind::Nested) {
                 let p = t.probe_thread.load(Relaxed);
+                // the task runs on the arbiter's loop, which (no stop was sent by the scenario) is running: its current
+                // arbiter accepts commands
+                if !stopped && t.probe_accepted.load(Relaxed) == 2 {
+                    return violated("C10:arbiter-current-is-another-arbiter", format!("Arbiter::current() inside task {id} refused a command while the arbiter was running (prior system on this thread: {})", scn.prior_system));
+                }
                 if p != 0 {
                     seen.nested_probes += 1;
                     if p != arb_thread {
@@ -594,6 +742,11 @@ fn merge(a: &mut Seen, b: &Seen) {
     a.stops_in_sequence += b.stops_in_sequence;
     a.system_arbiter_cases += b.system_arbiter_cases;
     a.block_on_values += b.block_on_values;
+    a.busy_phases += b.busy_phases;
+    a.burst_cases += b.burst_cases;
+    a.prior_system_cases += b.prior_system_cases;
+    a.current_arbiter_probes += b.current_arbiter_probes;
+    a.stops_on_system_arbiter += b.stops_on_system_arbiter;
 }
 
 pub fn run(args: &Args, rep: &mut Report) {
@@ -660,7 +813,7 @@ pub fn run(args: &Args, rep: &mut Report) {
             }
         }
     }
-    rep.rule = "seeded random scenarios: up to 12 commands {spawn, spawn_fn, stop} over task kinds {complete, pend forever, panic, nested probe via Arbiter::current(), yielding} sent in 1..3 barrier-separated phases by 1..4 sender threads through cloned ArbiterHandles, \
+    rep.rule = "seeded random scenarios (1/3 with the arbiter kept busy while each phase is sent so that everything is queued at once; 1/4 on a thread that hosted another System before; 1/40 a burst of 140..260 commands behind a stop on a busy arbiter): up to 12 commands {spawn, spawn_fn, stop} over task kinds {complete, pend forever, panic, nested probe via Arbiter::current(), yielding} sent in 1..3 barrier-separated phases by 1..4 sender threads through cloned ArbiterHandles, \
                 to a dedicated arbiter or to the system arbiter; a ticket is taken before each send and the boolean result recorded after it; tasks stamp (entry count, start sequence, thread, System::current().id()) into per-task atomics read after join. \
                 Oracle: per-sender and cross-phase FIFO of starts, entry count <= 1, thread = arbiter's thread, current system/arbiter identity, nothing sent after a returned stop() starts, accepted tasks before a running sentinel all started, spawn false after the arbiter is gone, parked tasks dropped when join returns; plus block_on output checks. \
                 Distinct = distinct scenario (target, op lists); non-trivial = at least 2 commands."
@@ -678,4 +831,9 @@ pub fn run(args: &Args, rep: &mut Report) {
     rep.add("obs_scenarios_with_stop", seen.stops_in_sequence);
     rep.add("obs_system_arbiter_scenarios", seen.system_arbiter_cases);
     rep.add("obs_block_on_values", seen.block_on_values);
+    rep.add("obs_phases_sent_to_busy_arbiter", seen.busy_phases);
+    rep.add("obs_burst_after_stop_scenarios", seen.burst_cases);
+    rep.add("obs_prior_system_on_thread_scenarios", seen.prior_system_cases);
+    rep.add("obs_current_arbiter_probes_on_system_thread", seen.current_arbiter_probes);
+    rep.add("obs_scenarios_with_stop_on_system_arbiter", seen.stops_on_system_arbiter);
 }
